@@ -225,8 +225,98 @@ def point_ops(check, repo):
                      expected="value operators return a new point and leave both operands unchanged")
 
 
+IMMUTABLE_CTORS = ("frozenset", "tuple", "namedtuple", "bytes", "int", "str", "compile", "Struct", "property", "staticmethod", "classmethod",
+                   "RLock", "Lock")
+MUTATORS = ("append", "extend", "insert", "pop", "remove", "clear", "update", "setdefault", "sort", "reverse", "add", "discard", "popitem")
+# class-level objects created by a call, read one by one: (class, attribute) -> (reason, callee every use must be an argument of)
+SHARED_REVIEWED = {
+    ("IntegerGMP", "_zero_mpz_p"): ("a constant zero, initialised once and only ever compared against", "mpz_cmp"),
+}
+# class-level containers that are filled at run time: (class, attribute) -> where the discipline is decided
+SHARED_MUTATED = {
+    ("_Curves", "curves"): "filled lazily under _Curves.curves_lock: rule P3 decides that every access is inside the lock",
+}
+
+
+def class_level_shared_objects(check, repo):
+    """P2: an object created in a class body exists once per process and is shared by every instance and every thread.
+    Allowed outright: constants, tuples, aliases of functions / native symbols, immutable constructors, locks, and list /
+    dict literals that no code mutates.  Anything else (in particular a hash or cipher object, a native handle, a
+    mutable container that is written) must be in the reviewed table, whose condition is re-checked on every run."""
+    def allowed(v):
+        if isinstance(v, (ast.Constant, ast.Name, ast.Attribute, ast.Lambda)):
+            return True
+        if isinstance(v, (ast.Tuple,)):
+            return all(allowed(e) for e in v.elts)
+        if isinstance(v, ast.BinOp):
+            return allowed(v.left) and allowed(v.right)
+        if isinstance(v, ast.UnaryOp):
+            return allowed(v.operand)
+        if isinstance(v, ast.Call) and norm(v.func).split(".")[-1] in IMMUTABLE_CTORS:
+            return True
+        return False
+    n = 0
+    for mname, mod in sorted(repo.modules.items()):
+        if ".SelfTest" in mname:
+            continue
+        for c in ast.walk(mod.tree):
+            if not isinstance(c, ast.ClassDef):
+                continue
+            for b in c.body:
+                if not (isinstance(b, (ast.Assign, ast.AnnAssign)) and b.value is not None):
+                    continue
+                targets = b.targets if isinstance(b, ast.Assign) else [b.target]
+                names = [t.id for t in targets if isinstance(t, ast.Name)]
+                if not names or allowed(b.value):
+                    continue
+                n += 1
+                name = names[0]
+                v = b.value
+                uses = [x for x in ast.walk(mod.tree) if isinstance(x, ast.Attribute) and x.attr == name]
+                key = "P2|class-level|%s.%s.%s" % (mname.split(".")[-1], c.name, name)
+                if name == "_fields_":
+                    continue                                             # ctypes structure layout, read by ctypes at class creation
+                if isinstance(v, (ast.List, ast.Dict, ast.Set, ast.ListComp, ast.DictComp)) or (isinstance(v, ast.BinOp)):
+                    muts = []
+                    for x in uses:
+                        par = getattr(x, "_parent", None)
+                        if isinstance(x.ctx, (ast.Store, ast.Del)) and not (isinstance(x.value, ast.Name) and x.value.id == "self"):
+                            muts.append(x)
+                        elif isinstance(par, ast.Attribute) and par.attr in MUTATORS and isinstance(getattr(par, "_parent", None), ast.Call):
+                            muts.append(x)
+                        elif isinstance(par, ast.Subscript) and isinstance(par.ctx, (ast.Store, ast.Del)):
+                            muts.append(x)
+                        elif isinstance(par, ast.AugAssign) and par.target is x:
+                            muts.append(x)
+                    ok = not muts or (c.name, name) in SHARED_MUTATED
+                    check.ob("P2", key, ok, mod.path, b.lineno,
+                             extracted="%s literal shared by all instances; %s" % (type(v).__name__.lower(), ("written at line %d" % muts[0].lineno + ("; " + SHARED_MUTATED[(c.name, name)] if ok else "")) if muts else "never written (%d reads)" % len(uses)),
+                             expected="class-level containers are constants, or their writes follow a decided discipline")
+                    continue
+                rev = SHARED_REVIEWED.get((c.name, name))
+                if rev is None:
+                    check.ob("P2", key, False, mod.path, b.lineno,
+                             extracted="`%s` creates one object at class definition; it is reached through %d attribute reads (e.g. line %s) and shared by every instance and thread" % (
+                                 norm(b)[:70], len(uses), uses[0].lineno if uses else "-"),
+                             expected="per-object state (hash / cipher objects, native handles, buffers) is created per instance")
+                    continue
+                bad = []
+                for x in uses:
+                    par = getattr(x, "_parent", None)
+                    if not (isinstance(par, ast.Call) and x in par.args and norm(par.func).split(".")[-1] == rev[1] and par.args.index(x) > 0):
+                        bad.append(x.lineno)
+                # the initialisation that follows in the class body is part of the definition
+                check.ob("P2", key, not bad, mod.path, b.lineno,
+                         extracted="reviewed: %s; %s" % (rev[0], "used otherwise at lines %s" % bad[:3] if bad else "all %d uses are read-only arguments of %s" % (len(uses), rev[1])),
+                         expected="a shared native object is never written after its initialisation")
+    check.count("class_level_objects", n)
+    if n < 10:
+        raise AnalysisError("only %d class-level objects found (confirmed: 15)" % n)
+
+
 def run(check, ctx):
     repo = ctx.repo
+    class_level_shared_objects(check, repo)
     argument_mutation(check, repo)
     shared_buffers(check, repo)
     copy_rules(check, repo)
